@@ -2,10 +2,18 @@
 import json, os
 from core import *
 
-MC_CONSTS = {
-    "quick": "  MaxViews = 2\n  MaxArrays = 2\n  MaxCells = 4\n  MaxCh = 2\n  BDs = {16}\n",
-    "thorough": "  MaxViews = 2\n  MaxArrays = 2\n  MaxCells = 6\n  MaxCh = 3\n  BDs = {8, 16}\n",
+def consts(views, arrays, cells, ch, bds):
+    return "  MaxViews = %d\n  MaxArrays = %d\n  MaxCells = %d\n  MaxCh = %d\n  BDs = %s\n" % (views, arrays, cells, ch, bds)
+
+
+# exhaustive configurations; sizes measured on this sandbox (16 workers), see DESIGN.md section 10.5
+MC_CONFIGS = {
+    "quick": [consts(2, 2, 4, 2, "{16}")],                       # 62 456 distinct states, ~10 s
+    "thorough": [consts(2, 2, 5, 2, "{8, 16}"),                  # two views, up to 5 cells, two bit depths
+                 consts(3, 2, 3, 2, "{16}"),                     # three views (windows of windows with a third observer)
+                 consts(2, 1, 6, 3, "{16}")],                    # three channels, one array of up to 6 cells
 }
+MC_CONSTS = {k: v[0] for k, v in MC_CONFIGS.items()}
 
 # property -> (model invariants, recorder profiles)
 PROPS = {
@@ -81,8 +89,14 @@ def generate(ctx, num, depth, maxviews=5, maxch=3, maxframes=3):
 def run(ctx, extra_profiles=()):
     spec = PROPS[ctx.prop]
     # 1. the property stated on the model, exhaustively under small bounds
-    cfg = "SPECIFICATION Spec\nCONSTANTS\n" + MC_CONSTS[ctx.tier] + "INVARIANTS\n  TypeOK\n" + "".join("  %s\n" % i for i in spec["inv"]) + "CHECK_DEADLOCK FALSE\n"
-    mc = model_check(ctx, "MCSignal", cfg, timeout=3000, tag="MCSignal-" + ctx.prop)
+    mc = None
+    for n, c in enumerate(MC_CONFIGS[ctx.tier]):
+        cfg = "SPECIFICATION Spec\nCONSTANTS\n" + c + "INVARIANTS\n  TypeOK\n" + "".join("  %s\n" % i for i in spec["inv"]) + "CHECK_DEADLOCK FALSE\n"
+        r = model_check(ctx, "MCSignal", cfg, timeout=3000, tag="MCSignal-%s-%d" % (ctx.prop, n))
+        if mc is None:
+            mc = r
+        else:
+            mc = dict(distinct=mc["distinct"] + r["distinct"], generated=mc["generated"] + r["generated"], left=0, depth=max(mc["depth"], r["depth"]))
     # 2. record from the real library, 3. validate against the specification
     stats, files = [], []
     for prof in list(spec["profiles"]) + list(extra_profiles):
@@ -175,6 +189,6 @@ def finish(ctx, mc, stats, mm, tot, level="model_checking", extra_cov=None, extr
     cov.update(extra_cov or {})
     write_evidence(ctx, level, cov,
                    ["TLC/SANY and the CommunityModules Json reader are trusted", "the recorder (harness/*.go) executes and projects only; it contains no expectation",
-                    "model bounds: " + MC_CONSTS[ctx.tier].replace("\n", ";"),
+                    "model bounds: " + " | ".join(c.replace("\n", ";") for c in MC_CONFIGS[ctx.tier]),
                     "amd64, the Go toolchain on PATH"], viol + extra_viol)
     return 1 if viol else 0
